@@ -8,8 +8,110 @@ RULE = ("metamorphic runs of ShapleyImportance('neighbor') on random datasets (2
         "pairwise distinct distances): (a) permute training rows with labels, provenance and distance rows; (b) permute and (c) duplicate the validation set; "
         "(d) strictly increasing transforms of all distances (affine, exp, cube, sqrt, rescaling by 1e-11 and 1e11, and three whose range is negative: log, shift below zero, -1/(d+1)); (e) consistent injective renaming of the class labels incl. order-changing "
         "ones and int->str->float (K=1, accuracy); (f) BATCH_DISTANCE_MATRIX_SIZE set to 1, 2, 7, 64; (g) interchangeable units (two units with identical rows); "
-        "every base run is also compared with the Lean model Ds.Neighbor.score so that 'both runs wrong the same way' is caught. Non-trivial = the base score vector "
+        "every base run is also compared with the Lean model Ds.Neighbor.score so that 'both runs wrong the same way' is caught; "
+        "(h) the exact K>1 / join path (compute_shapley_add): nn_k=2 on default and map/fork groupings and nn_k=1 on join provenances (rows needing two units), 3-4 units, "
+        "3-4 rows, 2-3 validation points whose distances are small integers WITH ties - the points mostly share one stable ranking of the rows but differ in their tie "
+        "pattern (a tie-free point next to tied ones) - accuracy and integer table utilities that are functions of the validation point; the validation set is permuted / "
+        "duplicated-and-shuffled and the scores must not move (no model: with tied distances the K-NN game itself is not pinned down by the property, but whatever a point "
+        "contributes cannot depend on which point was visited before it). Non-trivial = the base score vector "
         "is not constant; distinct = distinct (dataset, transformation).")
+
+
+def point_utility(I, U, nulls):
+    """additive utility given as a function of the validation POINT (validation rows carry their identity in column 0), so that re-ordering or repeating
+    validation points moves their utilities with them"""
+    Utility = I["utility"].Utility
+
+    def ids(X_test):
+        return [int(v) for v in np.asarray(X_test)[:, 0]]
+
+    class PointTable(Utility):
+        def __call__(self, *a, **k):
+            raise NotImplementedError
+
+        def null_score(self, *a, **k):
+            raise NotImplementedError
+
+        def mean_score(self, *a, **k):
+            raise NotImplementedError
+
+        def elementwise_score(self, X_train, y_train, X_test, y_test, metadata_train=None, metadata_test=None):
+            return np.array(U, dtype=float)[:, ids(X_test)]
+
+        def elementwise_null_score(self, X_train, y_train, X_test, y_test, metadata_train=None, metadata_test=None):
+            return np.array(nulls, dtype=float)[ids(X_test)]
+    return PointTable()
+
+
+def add_path_invariance(ctx, I, n_cases, budget):
+    """(h) validation-order invariance on the exact K>1 / join path, tie-rich distances"""
+    import gen
+    from sklearn.neighbors import KNeighborsClassifier
+    from props.common import conj_prov
+    rng = ctx.rng
+    t_start = ctx.elapsed()
+    for it in range(n_cases):
+        variant = ["join", "knn"][it % 2]
+        if variant == "knn":
+            n_units, K, c = 3, 2, 2
+            n_rows = rng.randint(3, 4)
+            if n_rows == n_units and rng.random() < 0.5:
+                rows, prov, pmode = [[u] for u in range(n_units)], None, "default"
+            else:
+                groups = gen.rand_groups(rng, n_rows, n_units)
+                rows, prov, pmode = [[g] for g in groups], np.array(groups), "groups"
+        else:
+            n_units, K, c = rng.randint(3, 4), 1, rng.randint(2, 3)
+            n_rows = rng.randint(3, 4)
+            rows = gen.rand_hypergraph(rng, n_units, n_rows, maxw=2, allow_isolated=False)
+            if all(len(r) == 1 for r in rows):
+                rows[rng.randrange(n_rows)] = sorted(rng.sample(range(n_units), 2))      # at least one joined row: otherwise K=1 takes the kernel path
+            prov, pmode = conj_prov(I, rows, n_units)[0], "join"
+        m = rng.choice([2, 2, 3])
+        y_train = [rng.randrange(c) for _ in range(n_rows)]
+        for k in range(min(c, n_rows)):
+            y_train[k] = k
+        rng.shuffle(y_train)
+        y_val = [rng.randrange(c) for _ in range(m)]
+        D, n_pat = dsm.tie_rich_columns(rng, n_rows, m)
+        ukind = rng.choice(["accuracy", "table"])
+        if ukind == "accuracy":
+            util, ureq = I["utility"].SklearnModelAccuracy(KNeighborsClassifier(1)), {}
+        else:
+            U = [[rng.randrange(-8, 9) for _ in range(m)] for _ in range(c)]
+            nl = [rng.randrange(-8, 9) for _ in range(m)]
+            util, ureq = point_utility(I, U, nl), {"util": U, "nulls": nl}
+        kind = "valdup+shuffle" if it % 4 == 3 else "valperm"
+        ids = list(range(m))
+        if kind == "valperm":
+            while ids == list(range(m)) or (rng.random() < 0.7 and ids[0] == 0):
+                rng.shuffle(ids)
+        else:
+            ids = ids * 2
+            rng.shuffle(ids)
+        case = dict(part="add-path", variant=variant, provenance=pmode, K=K, nUnits=n_units, rows=rows, y_train=y_train, y_val=y_val, dist=D.tolist(),
+                    utility=ukind, kind=kind, order=ids, **ureq)
+
+        def scores(order):
+            X = np.arange(n_rows, dtype=float).reshape(-1, 1)
+            Xv = np.array(order, dtype=float).reshape(-1, 1)        # a validation row carries the identity of its point
+            imp = I["imp"].ShapleyImportance(method="neighbor", utility=util, nn_k=K,
+                                             nn_distance=lambda A, B, D=D: D[:, [int(v) for v in np.asarray(B)[:, 0]]].copy())
+            return list(np.asarray(imp.fit(X, np.array(y_train), provenance=prov).score(Xv, np.array([y_val[j] for j in order])), dtype=float))
+        try:
+            base = scores(list(range(m)))
+            got = scores(ids)
+        except Exception as e:  # noqa
+            ctx.mismatch("score() raised on the K>1 / join path", case, impl=exc_name(e) + repr(e))
+            continue
+        ctx.case(case, nontrivial=len(set(round(x, 9) for x in base)) > 1, sample=case, kind="add:" + kind, mode=pmode, add_variant=variant,
+                 tie_patterns=min(n_pat, 3), util=ukind)
+        ctx.maxi(units=n_units, rows=n_rows)
+        scale = 1.0 if ukind == "accuracy" else 9.0
+        if len(got) != len(base) or any(not abs(a - b) <= 1e-9 * (1 + scale) for a, b in zip(got, base)):
+            ctx.mismatch("scores on the K>1 / join path changed when the validation set was re-ordered (%s)" % kind, case, impl=got, spec=base)
+        if ctx.elapsed() - t_start > budget:
+            break
 
 
 def run(ctx):
@@ -123,5 +225,6 @@ def run(ctx):
             ctx.mismatch("scores changed under a presentation-only transformation (%s)" % kind, case, impl=got, spec=want, model=(ans["ok"] if ans else None))
         if ctx.elapsed() > (400 if q else 1800):
             break
+    add_path_invariance(ctx, I, 6 if q else 60, 24 if q else 600)
     return ctx.finish("proof", "C07_val_perm, C07_val_dup, C07_monotone, C07_units_perm, C07_symmetric*, C07_batch_size: invariances of the modelled kernel/neighbor "
                       "pipeline for all sizes; this run performed the corresponding metamorphic runs on the implementation, each base run also compared with the model.", RULE)
